@@ -498,7 +498,7 @@ def runDrop (fam : String) (n : Nat) (boxed : Bool) (mode : String) (hi : Option
     s!"created=0 dropped=0 returned=0 ok={if Drops.complete next n 0 then 1 else 0}"
   else
     -- `cz` / `gz`: the same code with a zero-sized item type — the ledger does not depend on the item's size
-    let r := if fam == "ga" || fam == "gz" then Drops.groupArr n next else Drops.collectExactly n boxed next
+    let r := if fam == "ga" || fam == "gz" || fam == "gf" then Drops.groupArr n next else Drops.collectExactly n boxed next
     let created := (Drops.created next n 0).length
     s!"created={created} dropped={r.1.drops.length} returned={r.1.out.length} ok={if r.2 then 1 else 0}"
 
